@@ -92,6 +92,35 @@ def configure(ignored, form, nbs=()):
         flags = ['-' + FLAG[c] for c in CATS if c not in ignored]
         if not flags:
             flags = ['-' + FLAG[c].upper() for c in CATS]      # nothing to process: all six negative flags
+    if form == 'config+flags':
+        # part of the set through the booleans of a configuration file in the working directory, the rest through negative flags, both
+        # read by the real parser of the diff command (nbdime.nbdiffapp); an empty flag list leaves the configuration alone in charge
+        import json as _json, os, shutil, tempfile
+        from nbdime import nbdiffapp
+        cats = [c for c in CATS if c in ignored]
+        by_config, by_flag = cats[::2], cats[1::2]
+        flags = ['-' + FLAG[c].upper() for c in by_flag]
+        d = tempfile.mkdtemp(prefix='nbdime-verif-c14-')
+        old = os.getcwd()
+        saved = {k: os.environ.get(k) for k in ('JUPYTER_CONFIG_DIR', 'JUPYTER_CONFIG_PATH', 'JUPYTER_NO_CONFIG', 'HOME')}
+        try:
+            with open(os.path.join(d, 'nbdime_config.json'), 'w') as fh:
+                _json.dump({'NbDiff': {c: False for c in by_config}}, fh)
+            os.environ.update({'JUPYTER_CONFIG_DIR': os.path.join(d, 'none'), 'JUPYTER_CONFIG_PATH': os.path.join(d, 'none'), 'HOME': d})
+            os.environ.pop('JUPYTER_NO_CONFIG', None)
+            os.chdir(d)
+            parser = nbdiffapp._build_arg_parser(prog='nbdiff')        # the name the console script runs under
+            ns = parser.parse_args(['a.ipynb', 'b.ipynb'] + flags)
+            nargs.process_diff_flags(ns)
+        finally:
+            os.chdir(old)
+            for k, v in saved.items():
+                if v is None:
+                    os.environ.pop(k, None)
+                else:
+                    os.environ[k] = v
+            shutil.rmtree(d, ignore_errors=True)
+        return {'config NbDiff': {c: False for c in by_config}, 'flags': flags}
     if form in ('negative', 'positive'):
         import argparse
         parser = argparse.ArgumentParser()
@@ -199,7 +228,9 @@ def _job(job):
                 bb = b
             if nbspace.validate_strict(bb):
                 continue
-            for form in ('negative', 'positive', 'mapping', 'keylist'):
+            for form in ('negative', 'positive', 'mapping', 'keylist', 'config+flags'):
+                if form == 'config+flags' and not ignored:
+                    continue
                 cnt += 1
                 keys.add(hash((nbspace.canon(a), nbspace.canon(bb), ignored, form)))
                 fails = check_pair(a, bb, ignored, form)
